@@ -138,6 +138,14 @@ pub fn histories() -> Vec<(String, Cfg, Vec<Op>)> {
             c.meta = m.clone();
             out.push((format!("av/{}{}", if fast { "fast" } else { "std" }, if meta { "/meta" } else { "" }), c.clone(), hist::build_ops(&c, &spec(vec![true, false, true, false], PtsMode::Plain, vec![]))));
         }
+        // a sample larger than 64 KiB (a single write of that size reaches the sink)
+        {
+            let c = Cfg::basic(VCodec::H264, None, fast);
+            let k = oracle::frames::video_frame(VCodec::H264, true, true, 1, 6).0;
+            let mut big = vec![0u8, 0, 0, 1, 0x41];
+            big.extend((0..100_000usize).map(|i| 0x10 + (i % 0xe0) as u8));
+            out.push((format!("large-sample/{}", if fast { "fast" } else { "std" }), c, vec![Op::WV { pts: T(0.0), data: Bytes::new(k), key: true }, Op::WV { pts: T(0.04), data: Bytes::new(big), key: false }]));
+        }
         // zero-frame and single-frame files
         let c = Cfg::basic(VCodec::H264, None, fast);
         out.push((format!("zero-frame/{}", if fast { "fast" } else { "std" }), c.clone(), vec![]));
@@ -274,9 +282,14 @@ pub fn check(ctx: &Ctx) -> i32 {
                 scripts.push(Script { answers: vec![(k, a)], budget: None });
             }
         }
-        // (b) accept exactly j bytes, then fail
+        // (b) accept exactly j bytes, then fail: every offset (for the >64 KiB file: every 1021st
+        // offset plus the neighbourhoods of 64 KiB multiples and of both ends)
+        let big = clean.accepted.len() > 20_000;
         for j in 0..clean.accepted.len() {
-            scripts.push(Script { answers: vec![], budget: Some(j) });
+            let near = |x: usize| j + 3 >= x && j <= x + 3;
+            if !big || j % 1021 == 0 || j < 64 || j + 64 >= clean.accepted.len() || near(65536) || near(131072) || near(65536 + 700) {
+                scripts.push(Script { answers: vec![], budget: Some(j) });
+            }
         }
         // (c) bounded deviations over the non-fatal menu, plus one fatal answer after them
         let benign = [Ans::One, Ans::Half, Ans::Interrupted];
@@ -292,7 +305,7 @@ pub fn check(ctx: &Ctx) -> i32 {
             }
         }
         // full product of the menu over all calls for the tiny files
-        if ncalls <= 8 {
+        if ncalls <= 8 && !big {
             let menu = [Ans::All, Ans::One, Ans::Half, Ans::Interrupted];
             let mut prod: Vec<Vec<(usize, Ans)>> = vec![vec![]];
             for k in 0..ncalls {
